@@ -223,6 +223,38 @@ func genKeys(repo string) (string, []string, error) {
 	emitListing(&b, &notes, irk, "Keeper.SetPlan", "setPlanListing")
 	notes = append(notes, tri.notes...)
 
+	// ---- x/dymns/types : store keys -------------------------------------------------------------------
+	dk, err := loadFiles(filepath.Join(repo, "x/dymns/types/keys.go"))
+	if err != nil {
+		return "", nil, err
+	}
+	psAsset := paramSpec{kind: kEnum, leanType: "AssetType", strFn: "assetTypeName"}
+	trn := &bytesTranslator{p: dk, specs: map[string]*fnSpec{}, enumCases: map[string]string{"TypeName": ".name", "TypeAlias": ".alias"}}
+	for _, sp := range []*fnSpec{
+		{goName: "DymNameKey", leanName: "dymNameKey", params: []paramSpec{psBytes}},
+		{goName: "DymNamesOwnedByAccountRvlKey", leanName: "dymNamesOwnedByAccountRvlKey", params: []paramSpec{psBytes}},
+		{goName: "ConfiguredAddressToDymNamesIncludeRvlKey", leanName: "configuredAddressToDymNamesIncludeRvlKey", params: []paramSpec{psBytes}},
+		{goName: "FallbackAddressToDymNamesIncludeRvlKey", leanName: "fallbackAddressToDymNamesIncludeRvlKey", params: []paramSpec{psBytes}},
+		{goName: "SellOrderKey", leanName: "sellOrderKey", params: []paramSpec{psBytes, psAsset}},
+		{goName: "BuyOrderKey", leanName: "buyOrderKey", params: []paramSpec{psBytes}},
+		{goName: "BuyerToOrderIdsRvlKey", leanName: "buyerToOrderIdsRvlKey", params: []paramSpec{psBytes}},
+		{goName: "DymNameToBuyOrderIdsRvlKey", leanName: "dymNameToBuyOrderIdsRvlKey", params: []paramSpec{psBytes}},
+		{goName: "AliasToBuyOrderIdsRvlKey", leanName: "aliasToBuyOrderIdsRvlKey", params: []paramSpec{psBytes}},
+		{goName: "RollAppIdToAliasesKey", leanName: "rollAppIdToAliasesKey", params: []paramSpec{psBytes}},
+		{goName: "AliasToRollAppIdRvlKey", leanName: "aliasToRollAppIdRvlKey", params: []paramSpec{psBytes}},
+	} {
+		trn.specs[sp.goName] = sp
+		b.WriteString(trn.fn(sp) + "\n")
+	}
+	emitConstBytes(&b, &notes, trn, "KeyCountBuyOrders", "keyCountBuyOrders")
+	for _, c := range []string{"KeyPrefixDymName", "KeyPrefixRvlDymNamesOwnedByAccount", "KeyPrefixRvlConfiguredAddressToDymNamesInclude",
+		"KeyPrefixRvlFallbackAddressToDymNamesInclude", "KeyPrefixSellOrder", "KeyPrefixDymNameSellOrder", "KeyPrefixAliasSellOrder",
+		"KeyPrefixBuyOrder", "KeyPrefixRvlBuyerToBuyOrderIds", "KeyPrefixRvlDymNameToBuyOrderIds", "KeyPrefixRvlAliasToBuyOrderIds",
+		"KeyPrefixRollAppIdToAliases", "KeyPrefixRvlAliasToRollAppId"} {
+		emitConstBytes(&b, &notes, trn, c, "dymns"+c)
+	}
+	notes = append(notes, trn.notes...)
+
 	// ---- x/lockup : reference keys and iterator bounds -----------------------------------------------
 	lt, err := loadFiles(filepath.Join(repo, "x/lockup/types/keys.go"))
 	if err != nil {
